@@ -36,7 +36,7 @@ func onlySignalsEOF(f *ssa.Function) bool {
 }
 
 func checkC05(c *Ctx) {
-	c.explainf("C05 decides: (ERR) in every function of the interpreter package (lexer, parser, infix parser, generator, VM, call machinery, builtins, converters) every error returned by a repository function is tested, returned or passed on, and on the non-nil branch the function does not return a nil error; (CAP) in every function that captures the VM control state each return of a possibly non-nil error after the capture is preceded on every path by a restore, and every caller of CallFunction has such a bracket or a named enclosing one; (TRUNC) every error return of the call dispatcher after argument preparation is preceded by truncating the data stack to its starting size; (MAIN) the compiled code is appended to the main function only on the success branch of compilation and the run loop's error path parks the program counter at the end of the restored function; (RESET) every ParseTokens call in an entry function is dominated by a parser reset. A Go builtin is called through userfun only inside a capture/restore bracket, and a function that registers a user type and can fail afterwards has a deferred undo (C05-UNDO). It does not decide equivalence of later evaluations with a twin interpreter.")
+	c.explainf("C05 decides: (ERR) in every function of the interpreter package (lexer, parser, infix parser, generator, VM, call machinery, builtins, converters) every error returned by a repository function is tested, returned or passed on, and on the non-nil branch the function does not return a nil error; (CAP) in every function that captures the VM control state each return of a possibly non-nil error after the capture is preceded on every path by a restore, and every caller of CallFunction has such a bracket or a named enclosing one; (TRUNC) every error return of the call dispatcher after argument preparation is preceded by truncating the data stack to its starting size; (MAIN) the compiled code is appended to the main function only on the success branch of compilation and the run loop's error path parks the program counter at the end of the restored function; (RESET) every ParseTokens call in an entry function is dominated by a parser reset. A Go builtin is called through userfun only inside a capture/restore bracket, and a function that registers a user type and can fail afterwards has a deferred undo (C05-UNDO). The undo hands the previous type to nothing that stores into it; eval brackets its own nested run, the capture before the frame is pushed; the routines that compile a text with a fresh generator put the macro table back when the text does not compile (C05-MACRO; a macro defined by a form that a failed run never reached is a recorded finding). It does not decide equivalence of later evaluations with a twin interpreter.")
 
 	c.checkDeclarationUndone("C05-UNDO")
 	// ---------------- C05-ERR
